@@ -195,6 +195,9 @@ class Repo:
     def module(self, name):
         if name not in self.modules:
             path = os.path.join(self.root, PKG, name + '.py')
+            if not os.path.exists(path) and name.startswith('shapes_'):
+                # user classes for properties quantified over "every Serializable class of the documented shapes": sidecar source
+                path = os.path.join(os.path.dirname(os.path.dirname(os.path.abspath(__file__))), 'contracts', 'shapes', name + '.py')
             if not os.path.exists(path):
                 return None
             self.modules[name] = ModuleInfo(self, name, path)
